@@ -14,6 +14,22 @@ Theorem c02_prefix_always : forall dir recs input fuel, wf recs ->
 Proof. exact prefix_always. Qed.
 Print Assumptions c02_prefix_always.
 
+(* the same when the transport also fails transiently at arbitrary points (the input arrives in segments,
+   each ending in a transport error such as a read deadline) and the application retries its Read *)
+Theorem c02_prefix_with_transient_transport_errors : forall dir recs seg segs fuel, wf recs ->
+  is_prefix (oks (read_segs fuel dir recs (mk_reader 0 false) seg segs)) recs.
+Proof. exact prefix_always_transient. Qed.
+Print Assumptions c02_prefix_with_transient_transport_errors.
+
+(* ... and that latch is what carries it: a reader which stays usable after an error inside a record takes the
+   body of a 2-byte record for the next header and returns the next header's plaintext as data *)
+Theorem c02_transient_error_without_latch_refuted :
+  wf nolatch_recs /\
+  oks (read_segs_nolatch 4 true nolatch_recs (mk_reader 0 false) [] nolatch_segs) = [[0; 5]] /\
+  ~ is_prefix (oks (read_segs_nolatch 4 true nolatch_recs (mk_reader 0 false) [] nolatch_segs)) nolatch_recs.
+Proof. exact transient_without_latch_refuted. Qed.
+Print Assumptions c02_transient_error_without_latch_refuted.
+
 (* once a read fails, nothing is ever returned as valid again *)
 Theorem c02_no_data_after_error : forall dir recs fuel r input l1 e l2,
   read_all fuel dir recs r input = l1 ++ e :: l2 -> (forall p, e <> ROk p) -> oks l2 = [].
